@@ -18,7 +18,7 @@ EXPLANATION = (
 )
 BOUNDS = {"quick": "max_iter 1..4, all chi^2 sequences, tol symbolic; all compositions of n<=4", "thorough": "max_iter 1..6; all compositions of n<=5"}
 OUTSIDE = "durations (the clock stub is only monotone); max_iter beyond the bound (each loop iteration is the same code; the bound limits the bookkeeping paths)"
-ASSUMPTIONS = ["chi^2 >= 0 (positive semi-definite information)", "spsolve stub: arbitrary vector per solve", "time stub: strictly increasing instants"]
+ASSUMPTIONS = ["chi^2 >= 0 (positive semi-definite information)", "spsolve stub: an arbitrary but deterministic function of its arguments (same matrix and right-hand side terms => same result, different terms => an unrelated vector)", "time stub: strictly increasing instants"]
 
 
 def make_epoch_edge(P, g, tag):
@@ -49,10 +49,17 @@ def make_epoch_edge(P, g, tag):
             return self.chi[ep]
 
         def calc_error(self):
-            return np.array([0.5, -0.25])
+            # free per state as well, so that a linear system assembled at a stale state is a different system
+            ep = self._state()
+            if ("e", ep) not in self.chi:
+                self.chi[("e", ep)] = P.vector("%serr%d_%d" % (tag, self.k, ep), 2)
+            return self.chi[("e", ep)]
 
         def calc_jacobians(self):
-            return [np.array([[1.0, 0.5], [0.25, 2.0]]) * (a + 1) for a in range(len(self.vertices))]
+            ep = self._state()
+            if ("j", ep) not in self.chi:
+                self.chi[("j", ep)] = [P.full_matrix("%sjac%d_%d_%d" % (tag, self.k, ep, a), 2, 2) for a in range(len(self.vertices))]
+            return list(self.chi[("j", ep)])
 
         def is_valid(self):
             return self._is_valid()
@@ -82,8 +89,11 @@ def _report(max_iter):
         if not P.symbolic:
             P.inputs["tol"] = tol
         results = []
+        from .graphkit import functional_solver
+
+        solver = functional_solver(P) if P.symbolic else None
         for verbose in (False, True):
-            env = install_stubs(P, g)
+            env = install_stubs(P, g, solver=solver)
             graph, verts, edges = _build(P, g)
             res = graph.optimize(tol=tol, max_iter=max_iter, fix_first_pose=True, verbose=verbose)
             n_updates = edges[0].epoch  # states seen so far: 0..epoch
@@ -153,10 +163,13 @@ def _compositions(n):
 
 def _split(n, parts):
     def fn(P, g):
-        env = install_stubs(P, g)
+        from .graphkit import functional_solver
+
+        solver = functional_solver(P) if P.symbolic else None
+        env = install_stubs(P, g, solver=solver)
         graph, verts, edges = _build(P, g)
         res = graph.optimize(tol=0.0, max_iter=n, fix_first_pose=True, verbose=False)
-        env2 = install_stubs(P, g)
+        env2 = install_stubs(P, g, solver=solver)
         graph2, verts2, edges2 = _build(P, g)
         rs = [graph2.optimize(tol=0.0, max_iter=k, fix_first_pose=True, verbose=False) for k in parts]
         P.check("single_ran_all", res.num_iterations == n and edges[0].epoch == n)
@@ -176,6 +189,7 @@ def _split(n, parts):
             P.check("same_solver_calls", len(env.solves) == len(env2.solves))
             for (A1, r1, _d1), (A2, r2, _d2) in zip(env.solves, env2.solves):
                 P.check_eq("same_rhs", r2, r1)
+                P.check_eq("same_matrix", A2, A1)
 
     return fn
 
